@@ -99,6 +99,10 @@ def wf_document(case, rnd):
         body = f'<rect wh="9"><![CDATA[{v}]]></rect>'
     elif src == "comment-attr":
         body = f'<rect wh="2" _="{a}"/>'
+    elif src == "comment-var":
+        body = f'<var v="{a}"/><rect wh="2" _="l $v r"/>'
+    elif src == "comment-var-chain":
+        body = f'<var p="$q"/><var q="$r"/><var r="{a}"/><rect wh="2" _="l $p r"/>'
     elif src == "raw-comment-attr":
         body = f'<rect wh="2" __="{a}"/>'
     elif src == "input-comment":
